@@ -314,7 +314,11 @@ func (g *gen) authReply() replySpec {
 
 func (g *gen) failReply(ms []rscp.Message) replySpec {
 	items := encItems(ms)
-	switch g.pick(10) {
+	switch g.pick(12) {
+	case 10:
+		return replySpec{behaviour{kind: "stallInside", k: 100 + []int{0, 1, 10, 31, 32, 33, 40, 63}[g.pick(8)], items: items}, "X"}
+	case 11:
+		return replySpec{behaviour{kind: "partialThenServe", k: 100 + []int{1, 10, 31, 33, 40, 63}[g.pick(6)], items: items}, "X"}
 	case 9:
 		return replySpec{behaviour{kind: "badCrcOnce", items: items, once: new(int)}, "P invalidCrc 0"}
 	case 8:
@@ -488,6 +492,12 @@ func init() {
 					} else {
 						prop = "FAIL C08 a valid request against a healthy peer fails: " + trunc(r, 120)
 					}
+					if strings.HasPrefix(r, "err invalid") || strings.HasPrefix(r, "err version") || strings.HasPrefix(r, "err dataLimit") || strings.Contains(r, "undecodable") {
+						prop += " ;; FAIL C06 client and peer no longer understand each other although the peer follows the encryption scheme"
+					}
+				}
+				if strings.Contains(r, "undecodable") {
+					addVerdict(&prop, "FAIL C06 an independent peer cannot decrypt a frame of the client: "+trunc(r, 140))
 				}
 				switch {
 				case c.kind == "D":
